@@ -254,7 +254,20 @@ func (fsm *FSM) Snapshot() (raft.FSMSnapshot, error) {
 	compactionEnd := compactionStart.Add(-1 * exp)
 
 	tmpServer := ircserver.NewIRCServer("testnetwork", time.Now())
-	if oldState, ok := fsm.lastSnapshotState[first-1]; !ok {
+	// The state to start from is the one with the greatest last included
+	// index below first. That is not necessarily first-1: raft-internal log
+	// entries are not stored in the ircstore, so there can be gaps between
+	// the last compacted entry and the first remaining one.
+	var (
+		baseIndex uint64
+		haveBase  bool
+	)
+	for key := range fsm.lastSnapshotState {
+		if key < first && (!haveBase || key > baseIndex) {
+			baseIndex, haveBase = key, true
+		}
+	}
+	if !haveBase {
 		if first == 1 {
 			// This is the first snapshot which this RobustIRC network
 			// is taking, there cannot be previous state.
@@ -263,14 +276,14 @@ func (fsm *FSM) Snapshot() (raft.FSMSnapshot, error) {
 			glog.Errorf("No snapshot state containing index %d found. Unless you just upgraded this node from v0.3, this is a BUG.", first-1)
 		}
 	} else {
-		if _, err := tmpServer.Unmarshal(oldState); err != nil {
+		if _, err := tmpServer.Unmarshal(fsm.lastSnapshotState[baseIndex]); err != nil {
 			return nil, err
 		}
-		// All snapshot states but first-1 can now be deleted. first-1
+		// All snapshot states but the base can now be deleted. The base
 		// needs to be retained in case the snapshot which is
 		// currently in progress fails and needs to be repeated.
 		for key, _ := range fsm.lastSnapshotState {
-			if key == first-1 {
+			if key == baseIndex {
 				continue
 			}
 			delete(fsm.lastSnapshotState, key)
@@ -280,6 +293,9 @@ func (fsm *FSM) Snapshot() (raft.FSMSnapshot, error) {
 	iterator := fsm.ircstore.GetBulkIterator(first, last+1)
 	defer iterator.Release()
 	available := iterator.First()
+	// When every stored entry is old enough to be compacted, the state
+	// includes everything up to and including last.
+	allCompacted := true
 	for available {
 		var nlog raft.Log
 		if err := iterator.Error(); err != nil {
@@ -317,6 +333,7 @@ func (fsm *FSM) Snapshot() (raft.FSMSnapshot, error) {
 		parsed := robust.NewMessageFromBytes(nlog.Data, robust.IdFromRaftIndex(nlog.Index))
 		if parsed.Timestamp().After(compactionEnd) {
 			first = i
+			allCompacted = false
 			break
 		}
 
@@ -329,6 +346,10 @@ func (fsm *FSM) Snapshot() (raft.FSMSnapshot, error) {
 			}
 			fsm.ircstore.DeleteRange(i, i)
 		}
+	}
+
+	if allCompacted {
+		first = last + 1
 	}
 
 	state, err := tmpServer.Marshal(first - 1)
